@@ -238,7 +238,10 @@ def gen_case(rng, mixed):
     weights = [rng.choice(WEIGHT_POOL) for _ in range(k)]
     if all(w == 0.0 for w in weights):
         weights[0] = 1.0
-    return {"comps": comps, "weights": weights}
+    case = {"comps": comps, "weights": weights, "mem": list(rng.choice(MEM_CONFIGS))}
+    if rng.chance(1, 4):
+        case["mem2"] = list(rng.choice(MEM_CONFIGS))
+    return case
 
 
 def gen_single(rng):
@@ -266,10 +269,13 @@ def fmt_w(w):
     return repr(w)
 
 
-def run_interpolate(ctx, tools, prefixes, weights, tag):
+MEM_CONFIGS = [("20M", "1M"), ("20M", "64K"), ("5M", "256K"), ("1M", "4K"), ("100K", "1K")]     # -S >= 4 * --sort_block
+
+
+def run_interpolate(ctx, tools, prefixes, weights, tag, mem=("20M", "1M")):
     d = os.path.join(ctx.scratch, tag)
     args = ["timeout", "60", tools["interpolate"], "-m"] + prefixes + ["-w"] + [fmt_w(w) for w in weights] + \
-        ["-S", "20M", "--sort_block", "1M", "-T", d + "/tmp_"]
+        ["-S", mem[0], "--sort_block", mem[1], "-T", d + "/tmp_"]
     rc, out, err = vlib.sh(args, timeout=90, binary=True)
     return rc, out, err.decode("utf-8", "replace")
 
@@ -283,9 +289,23 @@ def check_case(ctx, tools, case, tag="i"):
     if any(not (math.isfinite(v[0]) and math.isfinite(v[1])) for c in comps for v in c["table"].values()):
         return {"status": "skip", "msg": "lmplz produced a non-finite back-off (degenerate corpus); not a log-linear input"}
     weights = [f32(w) for w in case["weights"]]
-    rc, out, err = run_interpolate(ctx, tools, prefixes, case["weights"], tag)
+    mem = tuple(case.get("mem", MEM_CONFIGS[0]))
+    rc, out, err = run_interpolate(ctx, tools, prefixes, case["weights"], tag, mem)
     orders = [c["order"] for c in comps]
-    res = {"status": "ok", "orders": orders, "comps": comps, "weights": weights, "rc": rc}
+    res = {"status": "ok", "orders": orders, "comps": comps, "weights": weights, "rc": rc, "mem": mem}
+    if rc == 0 and case.get("mem2"):
+        # the same inputs under a second memory / block-size setting: same bytes, or at least the same verdict
+        rc2, out2, err2 = run_interpolate(ctx, tools, prefixes, case["weights"], tag, tuple(case["mem2"]))
+        res["mem2_identical"] = (rc2 == 0 and out2 == out)
+        if rc2 != 0:
+            res.update(status="fail", sig="interpolate:exit-status", rc=rc2,
+                       msg="interpolate -S %s --sort_block %s exited with status %d: %s" % (case["mem2"][0], case["mem2"][1], rc2, err2.strip().split("\n")[-1][:200]))
+            return res
+        if out2 != out:
+            bad2 = spec_check(comps, weights, parse_arpa(out2))
+            if bad2:
+                res.update(status="fail", sig="interpolate:" + bad2[0], msg="with -S %s --sort_block %s: %s" % (case["mem2"][0], case["mem2"][1], bad2[1]))
+                return res
     words = sorted(set().union(*[set(c["vocab"]) for c in comps]) - {b"<unk>"})
     ids = {b"<unk>": 0}
     for i, w in enumerate(words):
@@ -462,6 +482,9 @@ def run(ctx):
                             "output is then checked over the whole union vocabulary).  Vocabulary-merge cases: 1-6 vocabularies incl. empty, "
                             "full and overlapping; non-trivial when at least two vocabularies and a non-empty union.")
     ctx.coverage["case_kinds"] = kinds
+    ctx.coverage["memory_settings"] = ["-S %s --sort_block %s" % m for m in MEM_CONFIGS]
+    ctx.coverage["second_setting_runs"] = sum(1 for r in results if "mem2_identical" in r)
+    ctx.coverage["second_setting_byte_identical"] = sum(1 for r in results if r.get("mem2_identical"))
     ctx.coverage["traces_validated_against_impl"] = len(model_in) - len(mismatches)
     for (kind, case), res in list(zip(cases, results))[:2]:
         ctx.sample({"kind": kind, "orders": res.get("orders"), "weights": case["weights"], "status": res["status"],
@@ -516,11 +539,19 @@ def is_known(ctx, sig):
 
 
 def dump(case):
-    return {"comps": [{"corpus": c["corpus"].hex(), "order": c["order"]} for c in case["comps"]], "weights": case["weights"]}
+    d = {"comps": [{"corpus": c["corpus"].hex(), "order": c["order"]} for c in case["comps"]], "weights": case["weights"]}
+    for k in ("mem", "mem2"):
+        if k in case:
+            d[k] = case[k]
+    return d
 
 
 def undump(c):
-    return {"comps": [{"corpus": bytes.fromhex(x["corpus"]), "order": x["order"]} for x in c["comps"]], "weights": c["weights"]}
+    d = {"comps": [{"corpus": bytes.fromhex(x["corpus"]), "order": x["order"]} for x in c["comps"]], "weights": c["weights"]}
+    for k in ("mem", "mem2"):
+        if k in c:
+            d[k] = c[k]
+    return d
 
 
 def replay(ctx, obj):
